@@ -73,7 +73,7 @@ def worker(args):
             pn = rnd.choice(["http", "scgi", "fastcgi"])
             tok = b"U%d-%d" % (windex, ci)
             query = []
-            kind = rnd.choice(["ok", "ok", "ok", "over-limit", "field-over-limit", "longer-than-declared", "shorter-than-declared", "bad-boundary", "no-final-boundary"])
+            kind = rnd.choice(["ok", "ok", "ok", "app-abort", "over-limit", "field-over-limit", "longer-than-declared", "shorter-than-declared", "bad-boundary", "no-final-boundary"])
             cl_limit = mp_limit = None
             if app in (b"/upload", b"/rawup"):
                 if rnd.random() < 0.5:
@@ -83,7 +83,17 @@ def worker(args):
             send_body = body
             declared = len(body)
             expect = "ok"
-            if kind == "over-limit":
+            if kind == "app-abort" and app in (b"/upload", b"/rawup") and body:
+                # the application's content filter refuses the upload by throwing abort_upload(code) from one of its callbacks
+                code = rnd.choice([403, 404, 409, 500, 503])
+                if app == b"/upload":
+                    ev = rnd.choice(["n", "r", "e"] if parts else ["e"])
+                    nth = rnd.randrange(1, len(parts) + 1) if ev in ("n", "r") else 1
+                else:
+                    ev, nth = rnd.choice([("d", 1), ("e", 1)])
+                query.append(b"abort=%s%d.%d" % (ev.encode(), nth, code))
+                expect = str(code)
+            elif kind == "over-limit":
                 if app in (b"/upload", b"/rawup"):
                     mp_limit = max(1, len(body) - rnd.choice([1, 10]))
                     query.append(b"mp_limit=%d" % mp_limit)
@@ -187,6 +197,11 @@ def worker(args):
                         res["viol"].append({"key": "c12:multipart-filter-callbacks-wrong:" + pn, "detail": xf + " parts=%d" % len(parts), "replay": rp})
                         break
                     cnt("multipart_filter_checked")
+            elif kind == "app-abort" and expect != "ok":
+                if st != int(expect):
+                    res["viol"].append({"key": "c12:upload-aborted-by-the-filter-answered-with-%s:%s" % (st, pn), "detail": "filter threw abort_upload(%s) (%s)" % (expect, [x for x in query if x.startswith(b"abort")][0].decode()), "replay": rp})
+                    break
+                cnt("filter_aborts_checked")
             elif expect in ("400", "413"):
                 if st == 200:
                     res["viol"].append({"key": "c12:%s-upload-delivered:%s" % (kind, pn), "detail": "status 200 (app %s)" % app.decode(), "replay": rp})
@@ -224,7 +239,7 @@ def worker(args):
             if e.get("ev") == "on_error" and t:
                 errs[t] = errs.get(t, 0) + 1
         for t, (kind, expect, app) in sent.items():
-            if expect in ("400", "413", "incomplete") and mains.get(t, 0) > 0:
+            if expect != "ok" and expect != "ok-raw-short" and mains.get(t, 0) > 0:
                 res["viol"].append({"key": "c12:handler-called-for-refused-upload", "detail": "%s %s %s" % (t, kind, app), "replay": None})
                 break
             if errs.get(t, 0) > 1:
